@@ -9,7 +9,10 @@ requests / calls / returns / interruptions / transitions / pick-ups / status rep
 the case and must produce the same history; the Lean monitors judge the implementation's history.
 
 A second, judge-only search preempts `start_machine` / `stop_machine` themselves (line level, real thread):
-the model takes these requests as atomic.
+the model takes these requests as atomic (the code: one lock around them and around `StateMachine._new_state`;
+when the cycle thread has to wait for that lock the paused request thread is resumed, see `HLock`).
+Module-level requests are recorded as the client issued them (`reqstart` / `reqstop` … `reqdone`), whether or not
+they reach the machine (`post`): that they do is a clause the monitors judge.
 """
 import json
 import os
@@ -23,31 +26,38 @@ META = {
     'level_text': 'Theorems for every program of state/cleanup functions (arbitrary functions of the history), every '
                   'sequence of cycle/start/stop and every placement of concurrent requests at the reads of next_task: '
                   'cycle_calls_bounded (measure and positional), cycle_never_raises, init_flag_exact, cleanup_exactly_once, '
-                  'cleanup_not_interrupted, stop_makes_inactive, last_start_wins are fully proved from one coupling invariant '
-                  'between the machine and the observer; busy_until_finished is partial (each status assignment of '
-                  'start_machine/stop_machine/state_transition preserves the busy invariant; the fold over histories is stated '
-                  'and monitored) and refuted for a pre-empted start_machine.  The model is tied to lib/statemachine.py and '
-                  'states.py by an exhaustive + random correspondence run on the real classes, and the Lean monitors judge '
-                  'every implementation history.',
-    'level_note': 'Trusted: Lean kernel + axioms propext/Classical.choice/Quot.sound; requests of another thread are atomic '
-                  'with respect to the mixin (start_machine/stop_machine as a whole) in the theorems; their preemption is '
-                  'only searched (judge-only).',
+                  'cleanup_not_interrupted, stop_makes_inactive (incl.: a stop request to the module that finds a state '
+                  'function active has posted its stop when it returns), last_start_wins (incl.: a start request to the '
+                  'module has posted its start when it returns) are fully proved from one coupling invariant between the '
+                  'machine and the observer; busy_until_finished is fully proved from a second invariant (engaged => busy '
+                  'status, not engaged => status = declared final/stopped status) for requests that are atomic with respect '
+                  'to the transitions of the machine - which the repaired code guarantees by one lock (fix 5cfb218) - and '
+                  'refuted for a start_machine pre-empted by a transition (the code before the repair).  The model is tied '
+                  'to lib/statemachine.py and states.py by an exhaustive + random correspondence run on the real classes, '
+                  'and the Lean monitors judge every implementation history, also with start_machine/stop_machine '
+                  'pre-empted between any two of their lines.',
+    'level_note': 'Trusted: Lean kernel + axioms propext/Classical.choice/Quot.sound; that the lock makes '
+                  'start_machine/stop_machine/final_status atomic with respect to StateMachine._new_state is not a theorem '
+                  'but searched (line-level pre-emption of the request thread, the cycle thread waiting for the lock; '
+                  'judge-only).',
     'trusted': [
         'attribute names given to start() do not collide with class attributes of StateMachine (otherwise _update_attributes raises inside cycle)',
         'the transition hook does not raise (the hook of HasStates does not, for status codes valid for the module)',
         'final_status is the last action of a function that calls it',
+        'threading.RLock / the module accessLock provide mutual exclusion (the atomicity of module-level requests in the model)',
     ],
     'modelled_not_verified': [
         'time (now, delta), log texts, fast-poll switching, poller triggering',
         'Parameter/announceUpdate machinery behind read_status (the value returned by read_status is observed)',
     ],
     'assumptions': ['all_status_changes = True (default)',
-                    'status codes attached to state functions and status overrides of start_machine are busy codes '
-                    '(hypothesis of busy_until_finished)'],
+                    'status codes attached to state functions and status overrides of start_machine are busy codes, '
+                    'BUSY < ERROR (hypotheses BusyRules / BusyProg / BusyOps of busy_until_finished)'],
 }
 
 NSTATES = 4
 NCLEAN = 2
+DEFAULT_CLEAN = 2    # mixin only: no cleanup given to start_machine -> HasStates.on_cleanup (on_error / on_restart / on_stop)
 IDLE0 = [100, '']
 # status attached to the state functions of the module (st_0 and st_3 have none)
 HS_STATUS = {1: [340, 'state 1'], 2: [390, 'st 2']}
@@ -79,6 +89,8 @@ class Case:
         self.mod = None
         self.split = None       # judge-only race search: (slot_begin, line, slot_end, req)
         self.split_state = None
+        self.fin_seen = None    # what the last final_status call declared (default cleanup of the mixin)
+        self.lock_waits = 0     # how often a thread had to wait for the pre-empted request to release the lock
 
     # ---- outcomes -----------------------------------------------------------------
     def outcome(self, kind):
@@ -121,16 +133,21 @@ class Case:
                 kwds = {'a%d' % k: v for k, v in kw}
                 if self.hs:
                     self.events.append(['reqstart'])
+                    if cl != DEFAULT_CLEAN:     # otherwise: rely on start_machine's own default, self.on_cleanup
+                        kwds['cleanup'] = None if cl is None else getattr(self.mod, 'cl_%d' % cl)
                     self.mod.start_machine(getattr(self.mod, 'st_%d' % s),
-                                           cleanup=None if cl is None else getattr(self.mod, 'cl_%d' % cl),
                                            status=None if ovr is None else (ovr[0], ovr[1]), **kwds)
+                    self.events.append(['reqdone', True])
                 else:
                     if cl is not None:          # no cleanup: rely on start()'s own default
                         kwds['cleanup'] = RAW_CLEAN[cl]
                     self.sm.start(RAW_STATES[s], **kwds)
             else:
                 if self.hs:
+                    # the request as the client issued it (whether it reaches the machine is for the monitor to judge)
+                    self.events.append(['reqstop'])
                     self.mod.stop_machine((r[1][0], r[1][1]))
+                    self.events.append(['reqdone', False])
                 else:
                     self.sm.stop()
         finally:
@@ -197,7 +214,21 @@ def sid_of(func):
         return None
     if id(func) in _SID:
         return _SID[id(func)]
+    if func.__name__ == 'on_cleanup':
+        return DEFAULT_CLEAN
     return int(func.__name__.split('_')[1])
+
+
+_EXC_REPR = None
+
+
+def canon_text(text):
+    """status texts made from the repr of an exception (HasStates.on_error) -> '<reason>'"""
+    global _EXC_REPR
+    if _EXC_REPR is None:
+        import re
+        _EXC_REPR = re.compile(r'^[A-Za-z_]\w*(Error|Exception)\(')
+    return '<reason>' if _EXC_REPR.match(text) else text
 
 
 # ---- a second real thread that executes a request while the cycle thread waits -------------------
@@ -269,6 +300,53 @@ def finish_preempted(st):
         raise TimeoutError('request thread hangs')
 
 
+class HLock:
+    """a reentrant lock that knows its owner; stands in for the lock(s) of the machine / the module.
+
+    When a thread finds it held by the request thread that the harness has paused (pre-empted request), that thread
+    is resumed first - what a scheduler does when the running thread blocks - instead of dead-locking the harness.
+    """
+
+    def __init__(self):
+        self._l = threading.RLock()
+        self._owner = None
+        self._depth = 0
+
+    def mine(self):
+        return self._owner == threading.get_ident()
+
+    def acquire(self, blocking=True, timeout=-1):
+        if not self._l.acquire(False):
+            c = CUR
+            st = c.split_state if c is not None else None
+            if st is not None and not st['done'] and threading.get_ident() != st['thread'].ident:
+                c.lock_waits += 1
+                finish_preempted(st)
+            if not blocking:
+                if not self._l.acquire(False):
+                    return False
+            elif not self._l.acquire(timeout=20 if timeout is None or timeout < 0 else timeout):
+                if timeout is None or timeout < 0:
+                    raise TimeoutError('lock of the state machine is never released')
+                return False
+        self._owner = threading.get_ident()
+        self._depth += 1
+        return True
+
+    def release(self):
+        self._depth -= 1
+        if self._depth == 0:
+            self._owner = None
+        self._l.release()
+
+    def __enter__(self):
+        self.acquire()
+        return self
+
+    def __exit__(self, *args):
+        self.release()
+
+
 # ---- instrumented machine ------------------------------------------------------------------------
 _classes = {}
 
@@ -289,7 +367,7 @@ def get_classes():
                 c = CUR
                 # the read inside `with self._lock:` (the swap) is not a place where another thread can post
                 if c is not None and c.in_cycle and not c.suppress and threading.get_ident() == c.cycle_thread \
-                        and not object.__getattribute__(self, '_lock').locked():
+                        and not object.__getattribute__(self, '_lock').mine():
                     c.slot()
             return object.__getattribute__(self, name)
 
@@ -299,6 +377,16 @@ def get_classes():
                 c = CUR
                 if c is not None and c.in_cycle:
                     c.events.append(['take'])
+
+        def _new_state(self, statefunc):
+            # slot H: the last point before the transition (hook + change of state) where a request of another thread
+            # can take effect - the hook reads next_task.  (With hook and change of state under the lock of the
+            # machine it is the point before the lock is taken; without that lock nothing happens between here and
+            # the read in the hook.)
+            c = CUR
+            if c is not None and c.in_cycle and threading.get_ident() == c.cycle_thread:
+                c.slot()
+            StateMachine._new_state(self, statefunc)
 
         def start(self, statefunc, **kwds):
             StateMachine.start(self, statefunc, **kwds)
@@ -397,8 +485,6 @@ def get_classes():
 
     def state_transition(self, sm, newstate):
         c = CUR
-        if c is not None and c.in_cycle:
-            c.slot()
         c.events.append(['enter', sid_of(newstate)])
         c.suppress += 1
         try:
@@ -410,10 +496,32 @@ def get_classes():
         v = self._state_machine.status
         c = CUR
         if c is not None:
-            c.events.append(['status', [int(v[0]), str(v[1])]])
+            c.events.append(['status', [int(v[0]), canon_text(str(v[1]))]])
         return v
+
+    def on_cleanup(self, sm):
+        # the default cleanup of the mixin, observed like a cleanup function: what it declares and returns
+        c = CUR
+        c.events.append(['cleanup', DEFAULT_CLEAN])
+        c.fin_seen = None
+        c.suppress += 1
+        try:
+            ret = HasStates.on_cleanup(self, sm)
+        finally:
+            c.suppress -= 1
+        c.events.append(['ret', 'finish' if ret is fstates.Finish else ['next', sid_of(ret)] if callable(ret) else 'bad',
+                         c.fin_seen])
+        return ret
+
+    def final_status(self, code=Drivable.Status.IDLE, text=''):
+        c = CUR
+        if c is not None:
+            c.fin_seen = [int(Status(code)), canon_text(str(text))]
+        return HasStates.final_status(self, code, text)
     ns['state_transition'] = state_transition
     ns['read_status'] = read_status
+    ns['on_cleanup'] = on_cleanup
+    ns['final_status'] = final_status
     Mod = type('Mod', (HasStates, Drivable), ns)
 
     class Started(RuntimeError):
@@ -452,8 +560,6 @@ def get_classes():
 
     def raw_hook(sm, newstate):
         c = CUR
-        if c.in_cycle:
-            c.slot()
         c.events.append(['enter', sid_of(newstate)])
 
     _classes.update(TracedSM=TracedSM, Log=Log, Mod=Mod, create_module=create_module, raw_hook=raw_hook,
@@ -478,6 +584,8 @@ def impl_run(case, choose=None, next_op=None):
         if K['module'] is None:
             K['module'] = K['create_module']()
         mod = K['module']
+        if not isinstance(mod.accessLock, HLock):
+            mod.accessLock = HLock()
         saved = K['fstates'].StateMachine
         K['fstates'].StateMachine = K['TracedSM']
         try:
@@ -489,6 +597,8 @@ def impl_run(case, choose=None, next_op=None):
         c.sm = mod._state_machine
     else:
         c.sm = K['TracedSM'](logger=K['Log'](), transition=K['raw_hook'])
+    if not isinstance(object.__getattribute__(c.sm, '_lock'), HLock):
+        object.__setattr__(c.sm, '_lock', HLock())      # same discipline, but the harness can ask who holds it
     c.sm.maxloops = case['maxloops']
     CUR = c
     ops = []
@@ -513,6 +623,7 @@ def impl_run(case, choose=None, next_op=None):
         if c.split is not None:
             # where the request was actually stopped (function and statement), for the signature
             case['site'] = (c.split_state or {}).get('site', 'not-preempted')
+            case['lock_waits'] = c.lock_waits
     finally:
         CUR = None
     return c.events, c.errors, c.script, ops
@@ -538,6 +649,8 @@ EX_OPS = [['cycle'],
           ['req', ['start', 0, 0, [[0, 1]], None]],
           ['req', ['start', 3, None, [[0, 2], [1, 5]], None]],
           ['req', ['stop', [100, 'stopped']]]]
+# mixin: the start without cleanup argument runs with the mixin's default cleanup (on_cleanup)
+EX_OPS_HS = [EX_OPS[0], EX_OPS[1], ['req', ['start', 3, DEFAULT_CLEAN, [[0, 2], [1, 5]], None]], EX_OPS[3]]
 EX_STATE = [{'posts': [], 'fin': None, 'ret': ['next', 1]},
             {'posts': [], 'fin': None, 'ret': 'retry'},
             {'posts': [], 'fin': None, 'ret': 'finish'},
@@ -573,7 +686,7 @@ def exhaustive(hs, depth, maxloops=2):
             return pick(EX_STATE if kind == 'state' else EX_CLEAN)
 
         def next_op():
-            return pick(EX_OPS)
+            return pick(EX_OPS_HS if hs else EX_OPS)
         case = {'hasStates': hs, 'maxloops': maxloops, 'script': [], 'ops': [], 'env': []}
         try:
             events, errors, script, ops = impl_run(case, choose=choose, next_op=next_op)
@@ -595,7 +708,7 @@ def gen_req(rng, hs):
     if rng.random() < 0.65:
         kw = [[k, rng.randint(-3, 3)] for k in sorted(rng.sample(range(4), rng.choice([0, 1, 1, 2, 3])))]
         ovr = gen_status(rng) if hs and rng.random() < 0.25 else None
-        return ['start', rng.randrange(NSTATES), rng.choice([None, 0, 0, 1]), kw, ovr]
+        return ['start', rng.randrange(NSTATES), rng.choice([None, 0, 0, 1, DEFAULT_CLEAN] if hs else [None, 0, 0, 1]), kw, ovr]
     return ['stop', [100, rng.choice(['stopped', 'halt'])] if rng.random() < 0.8 else [150, 'parked']]
 
 
@@ -702,6 +815,9 @@ def check_cases(ctx, res, batch, label, compare=True):
         res.traces += 1
         f = features(events)
         res.count(label + '.' + ('hs' if case['hasStates'] else 'raw'))
+        if case.get('split'):
+            res.count('preempted.' + ('cycle-thread-waited-for-the-lock-held-by-the-request' if case.get('lock_waits')
+                                      else 'request-resumed-at-its-slot'))
         for k in sorted(f):
             res.count('feature.' + k)
         if not f:
@@ -760,7 +876,8 @@ def report_violation(ctx, res, case, events, errors, bad):
 # ---- entry points -----------------------------------------------------------------------------------------
 def run(ctx):
     res = Result()
-    res.rule = ('exhaustive: every execution with at most D choices (ops from {cycle, start A with cleanup, start B, stop}; '
+    res.rule = ('exhaustive: every execution with at most D choices (ops from {cycle, start A with cleanup, start B '
+                '[mixin: with the default cleanup on_cleanup], stop}; '
                 'behaviours of each call from {next, retry, finish, non-callable, raise} resp. {None, state, raise}), maxloops=2, '
                 'bare machine and HasStates module; random: op sequences up to depth 40 with requests from inside the '
                 'functions, final_status, requests injected at the reads of next_task (same thread or a real second thread); '
